@@ -4,7 +4,9 @@ C11  Feature-type/strand filters, ordering and counts agree with a full scan.
 Small feature sets with many ties are imported by the real create_db (one database serves many queries); every
 all_features / features_of_type call is compared with a brute-force filter of the model rows (multiset of ids) and
 its sequence is checked for sortedness under SQLite BINARY semantics (gvmon/models/C11.py).  icontract
-postcondition on the real helpers.make_query: placeholders == args.
+postcondition on the real helpers.make_query: placeholders == args.  Feature-set flavours: plain, odd (commas, blanks,
+wildcards), empty (seqid/source ''), norm (NFC/NFD and case twins); 'encodings' cases open one database file with
+FeatureDB(path, default_encoding=utf-8 / latin-1 / ascii) and compare every handle with the model and with the others.
 """
 import os
 from collections import Counter
@@ -149,7 +151,7 @@ def build(ctx, SET, dbfn):
     dedents its argument (lines that all start with a tab would lose it)."""
     import gffutils
 
-    if SET.get("flavor") != "empty":
+    if not G.is_empty(SET.get("flavor")):
         return gffutils.create_db(SET["text"], dbfn, from_string=True)
     path = ctx.tmp(".gff")
     with open(path, "w", encoding="utf-8", newline="") as fh:
@@ -299,6 +301,25 @@ def judge_query(ctx, case, db, rows, by_id, q, after_history=False):
                                                                      else "inside a collection"))
                 if any(r["featuretype"] == t for r in rows):
                     ctx.mon("featuretype argument containing %s: features stored under exactly that type" % name)
+    flavor = case["set"].get("flavor")
+    twin_keys = False
+    if G.is_empty(flavor) and q["limit"] is not None and q["limit"][0] == "":
+        ctx.mon("queries whose limit= names the empty seqid")
+    if flavor == "norm":
+        stored = set(r["featuretype"] for r in rows)
+        form = "as a plain string" if q["ft_form"] == "str" else "inside a collection"
+        for t in (q["ft"] or []):
+            tw = [x for x in stored if x != t and G.nfc(x) == G.nfc(t)]
+            cw = [x for x in stored if x != t and x.lower() == t.lower()]
+            if tw:
+                ctx.mon("featuretype argument with a stored NFC/NFD twin: " + form)
+            if cw:
+                ctx.mon("featuretype argument with a stored case twin")
+            if (tw or cw) and t not in stored:
+                ctx.mon("featuretype argument that is the NFC/NFD or case twin of a stored type, itself not stored")
+        if q["limit"] is not None and any(r["seqid"] != q["limit"][0] and G.nfc(r["seqid"]) == G.nfc(q["limit"][0])
+                                          for r in rows):
+            ctx.mon("limit= seqid with a stored NFC/NFD twin")
     hist = ""
     if after_history:
         ctx.mon("queries on a database with a history")
@@ -360,6 +381,11 @@ def judge_query(ctx, case, db, rows, by_id, q, after_history=False):
             continue
         desc = bool(q["reverse"])
         ctx.mon("sortedness checks (descending, single column)" if desc else "sortedness checks (ascending)")
+        if G.is_empty(flavor) and any(M.value(by_id[i], c) == "" for i in got for c in cols):
+            ctx.mon("sortedness checks with the empty string among the sort keys")
+        if flavor == "norm" and cols[0] in ("seqid", "source", "featuretype") and G.twins(
+                [M.value(by_id[i], cols[0]) for i in got], G.nfc):
+            ctx.mon("sortedness checks with NFC/NFD twins among the sort keys")
         if long_ft:
             ctx.mon("sortedness checks on results of long featuretype collections")
         i = M.first_inversion(keys, descending=desc)
@@ -496,6 +522,128 @@ def execute_history(ctx, case):
     return {"expected": nexp, "nkeys": 2}
 
 
+ENCODINGS = ["utf-8", "latin-1", "ascii"]
+
+
+def shown(f):
+    """What a returned feature shows (values; the printed line included)."""
+    return [f.id, f.seqid, f.source, f.featuretype, f.score, dict((k, list(f.attributes[k])) for k in f.attributes.keys()),
+            list(f.extra or []), str(f)]
+
+
+def execute_encodings(ctx, case):
+    """One database file opened with FeatureDB(path, default_encoding=e), text_factory untouched: default_encoding says
+    how bytes keys are decoded and nothing else, so every handle must give the model's answers, and the handles must agree
+    in values and in order."""
+    import gffutils
+
+    setp = case["set"]
+    encodings = case.get("encodings") or ENCODINGS
+    SET = G.make_set(setp["seed"], setp["n"], setp.get("flavor"))
+    rows = [dict(r) for r in SET["rows"]]
+    dbfn = ctx.tmp(".db")
+    handles = []
+    try:
+        build(ctx, SET, dbfn).conn.close()
+        conn = sqltrace.ORIG_CONNECT(dbfn)
+        raw = {r[0]: r for r in conn.execute("SELECT id, attributes, extra FROM features")}
+        conn.close()
+        if set(raw) != set(r["id"] for r in rows):
+            ctx.skip("encodings: the imported feature set differs from the model (see C01)")
+            return {"expected": 0, "nkeys": 0}
+        for r in rows:
+            r["attributes"], r["extra"] = raw[r["id"]][1], raw[r["id"]][2]
+        by_id = {r["id"]: r for r in rows}
+        ctx.mon("encodings: databases opened under %s" % " / ".join(encodings))
+        if any(t.startswith("non-ASCII") for t in SET["traits"]):
+            ctx.mon("encodings: databases with non-ASCII seqids / featuretypes / sources stored")
+        per = {}
+        for enc in encodings:
+            db = gffutils.FeatureDB(dbfn, default_encoding=enc)
+            handles.append(db)
+            ctx.mon("encodings: handles opened with default_encoding=")
+            obs = per[enc] = []
+            # distinct lists, counts
+            ctx.mon("encodings: distinct lists compared on every handle")
+            for name, col in (("featuretypes", "featuretype"), ("seqids", "seqid")):
+                ctx.mon("%s() comparisons" % name)
+                got = list(getattr(db, name)())
+                obs.append((name + "()", got))
+                want = sorted(set(r[col] for r in rows))
+                if sorted(got) != want:
+                    report(ctx, case, "encoding-" + name, {
+                        "why": "%s() does not list exactly the distinct values present on a handle opened with "
+                               "default_encoding=%r" % (name, enc), "got": sorted(got), "expected": want, "set": setp})
+            ctx.mon("count_features_of_type comparisons")
+            counts = [("", db.count_features_of_type())] + [(t, db.count_features_of_type(t)) for t in SET["types"]]
+            obs.append(("counts", counts))
+            want = [("", len(rows))] + [(t, sum(1 for r in rows if r["featuretype"] == t)) for t in SET["types"]]
+            if counts != want:
+                report(ctx, case, "encoding-count", {"why": "count_features_of_type differs from the number of stored features "
+                                                            "of the type on a handle opened with default_encoding=%r" % enc,
+                                                     "got": counts, "expected": want, "set": setp})
+            # full iteration: input order and the values of every feature
+            ctx.mon("full iterations compared with input order")
+            full = [shown(f) for f in db.all_features()]
+            obs.append(("all_features()", full))
+            ctx.mon("encodings: feature values compared with the model", len(full))
+            want = [[r["id"], r["seqid"], r["source"], r["featuretype"], r["score"], r["extra_in"]] for r in rows]
+            got = [x[:5] + [x[6]] for x in full]
+            if got != want:
+                i = next((i for i, (a, b) in enumerate(zip(got, want)) if a != b), min(len(got), len(want)))
+                report(ctx, case, "encoding-values", {
+                    "why": "full iteration on a handle opened with default_encoding=%r does not return the stored features "
+                           "(id, seqid, source, featuretype, score, extra) in input order" % enc,
+                    "position": i, "got": got[i:i + 2], "expected": want[i:i + 2], "set": setp})
+            for qi, q in enumerate(case["queries"]):
+                ctx.mon("encodings: queries judged on every handle")
+                judge_query(ctx, case, db, rows, by_id, q)
+                ob = q["order_by"]
+                ob = None if ob is None else (tuple(ob) if q["ob_form"] == "tuple" else list(ob))
+                try:
+                    res = [shown(f) for f in call(db, q, ob, features=True)]
+                except Exception as ex:
+                    res = "raised " + repr(ex)[:200]
+                obs.append(("query %d" % qi, res))
+                if isinstance(res, list):
+                    ctx.mon("encodings: feature values compared with the model", len(res))
+                    bad = [x[:4] for x in res if x[0] not in by_id or x[1:4] != [by_id[x[0]][c] for c in
+                                                                                ("seqid", "source", "featuretype")]]
+                    if bad:
+                        report(ctx, case, "encoding-values", {
+                            "why": "a query on a handle opened with default_encoding=%r returns features whose seqid / source "
+                                   "/ featuretype are not the stored ones" % enc, "got": bad[:3],
+                            "expected": [[by_id[b[0]][c] for c in ("id", "seqid", "source", "featuretype")]
+                                         for b in bad[:3] if b[0] in by_id], "query": q, "set": setp})
+        ref = encodings[0]
+        for enc in encodings[1:]:
+            for (name, a), (_, b) in zip(per[ref], per[enc]):
+                ctx.mon("encodings: result sequences compared between the handles")
+                if a != b:
+                    i = next((i for i, (x, y) in enumerate(zip(a, b)) if x != y), 0) if isinstance(a, list) and isinstance(
+                        b, list) else 0
+                    report(ctx, case, "encoding-differs", {
+                        "why": "%s gives different results (values or order) on handles opened with default_encoding=%r and %r"
+                               % (name, ref, enc), "position": i,
+                        ref: a[i:i + 2] if isinstance(a, list) else a, enc: b[i:i + 2] if isinstance(b, list) else b,
+                        "set": setp})
+                    break
+    except Exception as ex:
+        report(ctx, case, "raised", {"why": "opening / querying the database with default_encoding= raised an exception",
+                                     "raised": repr(ex)[:300], "set": setp})
+    finally:
+        for db in handles:
+            try:
+                db.conn.close()
+            except Exception:
+                pass
+        if os.path.exists(dbfn):
+            os.unlink(dbfn)
+        for v in contracts.drain():
+            report(ctx, case, "contract", v)
+    return {"expected": len(rows), "nkeys": 2}
+
+
 def execute_counts(ctx, case):
     db, SET, by_id = get_db(ctx, case["set"])
     rows = SET["rows"]
@@ -507,11 +655,16 @@ def execute_counts(ctx, case):
     cand = set(G.TYPES + ["absent", "%", "gene%", "g_ne"])
     if SET.get("flavor") == "odd":
         cand |= set(G.ODD_TYPES + G.PROBES)
+    if SET.get("flavor") == "norm":
+        cand |= set(G.NORM_TYPES)
+    present = set(r["featuretype"] for r in rows)
     for t in sorted(cand):
         ctx.mon("count_features_of_type comparisons")
         for name in G.odd_classes(t):
             ctx.mon("count_features_of_type vs iteration for a type containing " + name)
         n_model = sum(1 for r in rows if r["featuretype"] == t)
+        if SET.get("flavor") == "norm" and any(x != t and G.nfc(x) == G.nfc(t) for x in present):
+            ctx.mon("count_features_of_type comparisons for a type with a stored NFC/NFD twin")
         try:
             n = db.count_features_of_type(t)
             n_iter = len(list(db.features_of_type(t)))
@@ -527,6 +680,10 @@ def execute_counts(ctx, case):
         ctx.mon("%s() comparisons" % name)
         got = sorted(getattr(db, name)())
         want = sorted(set(r[col] for r in rows))
+        if "" in want:
+            ctx.mon("%s() comparisons with '' among the values present" % name)
+        if G.twins(want, G.nfc):
+            ctx.mon("distinct lists compared on a set with NFC/NFD twins")
         if got != want:
             report(ctx, case, name, {"why": "%s() does not list exactly the distinct values present" % name, "got": got,
                                      "expected": want, "set": case["set"]})
@@ -576,17 +733,27 @@ def run(ctx):
     nhist = 3 if quick else 5
     for si in range(nsets):
         setp = {"seed": rng.randrange(1 << 30), "n": rng.choice([12, 25, 40, 60, 90])}
-        if si % 3 == 2:
-            setp["flavor"] = "odd"
+        flavor = (None, "empty", "odd", None, "norm", "odd")[si % 6]
+        if si == 7:
+            flavor = "empty-all"
+        if flavor:
+            setp["flavor"] = flavor
         tag = (setp["seed"], setp["n"], setp.get("flavor"))
         _, SET, _ = get_db(ctx, setp)
-        ctx.classes["feature set: " + (setp.get("flavor") or "plain")] += 1
+        ctx.classes["feature set: " + (setp.get("flavor") or "plain").split("-")[0]] += 1
         case = {"kind": "counts", "set": setp}
         execute(ctx, case)
         ctx.case(("counts",) + tag, True, cls="counts / featuretypes / seqids", sample=None)
         case = {"kind": "counts_after_delete", "set": setp, "pick": rng.randrange(1000)}
         execute(ctx, case)
         ctx.case(("counts_after_delete", case["pick"]) + tag, True, cls="counts after deletes", sample=None)
+        for ei in range(2 if setp.get("flavor") in (None, "norm") else 1):
+            case = {"kind": "encodings", "set": setp, "encodings": list(ENCODINGS),
+                    "queries": [G.gen_query(rng, SET) for _ in range(6)]}
+            r = execute(ctx, case)
+            ctx.classes["same database under default_encoding utf-8 / latin-1 / ascii"] += 1
+            ctx.case(("encodings", ei, repr(case["queries"])) + tag, r["expected"] >= 3, cls="one database, three encodings",
+                     sample={"set": setp, "encodings": ENCODINGS, "features": r["expected"], "traits": SET["traits"]})
         for hi in range(nhist):
             ops = G.gen_history(rng, SET)
             case = {"kind": "history", "set": setp, "ops": ops, "db": rng.choice(["memory", "memory", "file"]),
@@ -623,7 +790,10 @@ MANIFEST = {
             "whose featuretypes/seqids/sources contain commas, blanks, '%', '_' and wildcards (as a string and inside "
             "collections), featuretype collections of 1000-1200 entries with and without repeats under order_by/reverse, "
             "and databases queried after a history of deletes and in-place rewrites through add_relation (input order, "
-            "'file_order', distinct lists and counts must follow the surviving features). Held = no executed "
+            "'file_order', distinct lists and counts must follow the surviving features), feature sets with an EMPTY "
+            "seqid/source column (also: every seqid empty), sets whose seqids/featuretypes/sources differ only by Unicode "
+            "normalisation form or case, and one database file opened under default_encoding utf-8 / latin-1 / ascii (every "
+            "handle judged against the model, handles compared with each other in values and order). Held = no executed "
             "query disagreed.",
     "note": "Trusted: the model in gvmon/models/C11.py, sqlite3. The sort key of the attributes/extra columns is the raw stored "
             "text. Multi-column reverse is only checked as a multiset (the statement is silent).",
